@@ -15,6 +15,12 @@ CHECKS = {
    "The whole sequence of playlists of every stream over long histories is checked for the RFC 8216 evolution rules (MSN monotone, MSN->(URI,duration,gap) functional, window bound, URI numbering, part numbering without holes, parts only under the last two segments, preload hint = next part, cross-stream agreement)."),
  "C05": ("muxmon", "exploration", MUX,
    "Every advertised URI is fetched when first listed and again whenever the playlist text changes (so also after Finalize dropped the RAM copy of disk segments); bodies hashed, decoded, compared with the concatenation of their parts; mfhd numbers checked; expired and never-issued URIs probed."),
+ "C06": ("llmon", "exploration", "runtime monitoring: step-controlled concurrent histories of the real Low-Latency muxer (hooked wait/park events) checked against the playlist state of every step",
+   "One writer advanced one Write at a time; blocking-reload, preload-hint and delta requests of every class issued at seeded steps on any stream; after each step the monitor waits for every woken waiter to re-park or return, then decides safety (response contains what was asked), bounded liveness (nobody parked although satisfiable) and the 400 rules; delta updates are compared with the full playlist of the same instant."),
+ "C07": ("llmon", "exploration", "runtime monitoring under the race detector: Close driven against confirmed-parked requests under forced schedules (hooks close.broadcast / wait.wake), state-based stuck detection",
+   "variant x storage x life point x pending set x schedule; each pending request is confirmed parked before Close; Close is held between its broadcast and the per-stream close until every waiter woke and re-parked (and the symmetric order); afterwards every pending and every new request must complete, the mutex must be free and the Directory empty."),
+ "C08": ("llmon", "exploration", "Go race detector + panic capture + snapshot/monotonicity oracles over seeded stress schedules of the real muxer",
+   "One writer and 4-31 readers cycling through every URL kind with seeded delays at the hook points, then Close while readers are active; race reports of the monitor's own process are parsed and de-duplicated; every 200 playlist is validated as a consistent snapshot; per-reader playlist sequences checked for monotone evolution; bodies of the same URI compared across readers."),
  "C14": ("plmon", "exploration", "runtime monitoring: generated playlist values pushed through the real Marshal/Unmarshal, compared field by field and against an independent second decoder",
    "Every subset of optional fields of every tag is enumerated, plus random legal values; each value is marshaled, unmarshaled, re-marshaled, decoded by the independent m3u8x reader and decoded again from four syntactic variants."),
  "C15": ("plmon", "exploration", "runtime monitoring: strict-grammar oracle over encoder output and served playlists, post-condition oracle over decoder results under seeded mutation and native go fuzzing",
@@ -52,6 +58,7 @@ m = {
  "engines": [
    {"name": "muxmon", "path": "/verif/cmd/vmon/mux.go", "serves_properties": [k for k,v in CHECKS.items() if v[0]=="muxmon"], "kind_free_text": "sequential runtime monitor of the real Muxer with reference-model oracles (internal/muxrun, internal/oracle)"},
    {"name": "plmon", "path": "/verif/cmd/vmon/playlist.go", "serves_properties": [k for k,v in CHECKS.items() if v[0]=="plmon"], "kind_free_text": "playlist codec monitor + native fuzz targets (internal/plx, internal/plfuzz, internal/m3u8x)"},
+   {"name": "llmon", "path": "/verif/cmd/vmon/c06.go", "serves_properties": ["C06","C07","C08"], "kind_free_text": "concurrent muxer monitors (c06.go step-controlled, c07.go forced Close schedules, c08.go race-detector stress; internal/hx hook dispatcher, internal/racelog)"},
    {"name": "stomon", "path": "/verif/cmd/vmon/storage.go", "serves_properties": ["C17"], "kind_free_text": "storage lock-step model monitor"},
  ],
  "checks": checks,
